@@ -410,6 +410,8 @@ class Engine:
             raise Unsupported("break/continue outside loop")
         result = flow[1] if flow[0] == Flow.RETURN else NONE
         st.env["result"] = result
+        for m in c.mutates:
+            st.env["new_" + m] = st.env[m]        # container parameters mutated in place: their final value, as the caller sees it
         self.covered_exits += 1
         for exc, cond in c.raises.items():
             # "raises exc iff cond": a normal return is only allowed when cond was false in the pre-state
@@ -1062,7 +1064,10 @@ class Engine:
         if isinstance(it, VModel) and hasattr(it, "sym_iter"):
             return it.sym_iter(self, st)
         if isinstance(it, VRef) and it.cls in self.reg.iter_fields:
-            return self.iter_protocol(self.load_field(st, it, self.reg.iter_fields[it.cls]), st)
+            seq = self.model_hook(it, "getattr", st, self.reg.iter_fields[it.cls])
+            if seq is NotImplemented:
+                seq = self.load_field(st, it, self.reg.iter_fields[it.cls])
+            return self.iter_protocol(seq, st)
         if isinstance(it, VSet):
             # a (finite) set is iterated in SOME order without repetition: an enumeration `ord` of its elements, unknown to the proof
             zs = it.key.z3sort()
@@ -1805,7 +1810,8 @@ class Engine:
         # mutated container arguments: rebind caller-side names
         for m in cc.mutates:
             argnode = node.args[names.index(m) - (1 if names and names[0] == "self" and isinstance(node.func, ast.Attribute) else 0)]
-            self.assign(argnode, post.env["new_" + m], st, True)
+            if isinstance(argnode, (ast.Name, ast.Attribute, ast.Subscript)):
+                self.assign(argnode, post.env["new_" + m], st, True)      # a temporary (e.g. set(x)) is mutated too, but nobody sees it
         return ret
 
     def call_ordinal(self, node):
